@@ -5,6 +5,7 @@
 import CF.Model.Machine
 import CF.Model.Ops
 import CF.Spec.Judges
+import CF.Spec.Canon
 import CF.Codec
 open CF CF.Codec
 
@@ -174,6 +175,12 @@ def opOf (s : String) : Option ReaderOp :=
 def opsReply (src : List Ev) (ops : List ReaderOp) : String :=
   join " ; " ((Ops.run ops (rawLines validUtf8 src)).1.map obsStr)
 
+/-- re-serialise all sections of a stream canonically (`canonBytes`, the object of theorem `C13_file`) -/
+def reserReply (src : List Ev) : String :=
+  match Judges.secsOf (Judges.specOf src) with
+  | some ss => "ok " ++ hexOf (canonBytes ss)
+  | none => "err"
+
 def handle (line : String) : String :=
   match line.trimAscii.toString.splitOn " " with
   | ["line", h] => match unhex h with | some bs => lineReply bs | none => "badreq"
@@ -200,6 +207,7 @@ def handle (line : String) : String :=
     (match unhex hdr, (recs.splitOn ",").mapM unhex, cap.toNat? with
      | some h, some rs, some c => stepReply h rs c
      | _, _, _ => "badreq")
+  | ["reser", src] => match srcOf src with | some s => reserReply s | none => "badreq"
   | ["build", src] => match srcOf src with | some s => buildStr (build validUtf8 s) | none => "badreq"
   | ["liftover", src, ivs] =>
     (match srcOf src with | some s => liftoverReply s (ivs.splitOn ",") | none => "badreq")
